@@ -8,7 +8,8 @@ import warnings
 
 import selfies as sf
 
-from . import oread
+from . import oread, judge
+from .judge import _wf_split, selfies_roles, _atom_text_of_symbol, compare_mols, _std_symbol_of_atom, _tok
 
 from .docs import DOC_INDEX
 
@@ -340,11 +341,6 @@ def lemma_ring_step(case):
 # C13
 
 
-def _tok(s):
-    """independent tokeniser for well-formed SELFIES: bracketed symbols and dots"""
-    return re.findall(r"\[[^\[\]]*\]|\.", s)
-
-
 def _dec(x, **kw):
     try:
         with warnings.catch_warnings():
@@ -462,45 +458,6 @@ def c07_string(case):
 # ---------------------------------------------------------------------------
 # C17 attribution
 
-_BR = re.compile(r"^\[[=#]?Branch([123])\]$")
-_RG = re.compile(r"^\[(?:[=#]|[-/\\][-/\\])?Ring([123])\]$")
-
-
-def selfies_roles(symbols):
-    """role of every symbol of an encoder-produced SELFIES fragment list: 'atom' / 'branch' / 'ring' / 'index' / 'dot'"""
-    roles = []
-    skip = 0
-    for s in symbols:
-        if s == ".":
-            roles.append("dot")
-            skip = 0
-            continue
-        if skip:
-            roles.append("index")
-            skip -= 1
-            continue
-        m = _BR.match(s)
-        if m:
-            roles.append("branch")
-            skip = int(m.group(1))
-            continue
-        m = _RG.match(s)
-        if m:
-            roles.append("ring")
-            skip = int(m.group(1))
-            continue
-        roles.append("atom")
-    return roles
-
-
-def _atom_text_of_symbol(sym):
-    """SMILES atom text the decoder writes for an atom symbol (independent: strip bond prefix, keep brackets unless organic)"""
-    body = sym[1:-1]
-    if body[:1] in "=#/\\":
-        body = body[1:]
-    if body in ("B", "C", "N", "O", "S", "P", "F", "Cl", "Br", "I"):
-        return body
-    return "[" + body + "]"
 
 
 def c17_decoder(case):
@@ -732,28 +689,6 @@ def c11_history(case):
 # C14
 
 
-def _wf_split(s):
-    out, i, n = [], 0, len(s)
-    while i < n:
-        if s[i] != "[":
-            return None
-        j = i + 1
-        while j < n and s[j] != "]":
-            if s[j] in "[.":
-                return None
-            j += 1
-        if j >= n:
-            return None
-        out.append(s[i:j + 1])
-        i = j + 1
-        if i < n and s[i] == ".":
-            if i + 1 >= n:
-                return None
-            out.append(".")
-            i += 1
-    return out
-
-
 def c14_utils(case):
     strs = case["strings"]
     wants = [_wf_split(s) for s in strs]
@@ -904,6 +839,91 @@ def c06_strict(case):
     finally:
         reset_table()
 
+
+# ---------------------------------------------------------------------------
+# C03 / C10 / C04 round trip
+
+
+def _enc(s, **kw):
+    try:
+        return ("ok", sf.encoder(s, **kw))
+    except sf.EncoderError as ex:
+        return ("EncoderError", str(ex)[-200:])
+    except Exception as ex:  # noqa
+        return ("exc", type(ex).__name__)
+
+
+def c03_roundtrip(case):
+    if not set_table(case.get("table")):
+        return ok("table rejected")
+    try:
+        s = case["smiles"]
+        e = _enc(s, strict=True)
+        if e[0] != "ok":
+            return ok("not accepted: %s" % (e,))
+        d = _dec(e[1])
+        if d[0] != "ok":
+            return bad("C03:decode-fails", "encoder(%r) = %r, decoding it gives %s" % (s, e[1], d))
+        m_in = oread.read_smiles(s)
+        if m_in.faults:
+            return ok("input not readable by O-READ: %s" % m_in.faults[:1])
+        m_out = oread.read_smiles(d[1])
+        if m_out.faults:
+            return bad("C03:output-unreadable", "decoder(encoder(%r)) = %r: %s" % (s, d[1], m_out.faults[:2]))
+        r = compare_mols(m_in, m_out)
+        if r is not None:
+            return bad("C03:" + r[0], "%r -> %r -> %r under %s: %s" % (s, e[1], d[1], _short(case.get("table")), r[1]))
+        return ok()
+    finally:
+        reset_table()
+
+
+def c10_stable(case):
+    if not set_table(case.get("table")):
+        return ok("table rejected")
+    try:
+        s = case["smiles"]
+        e = _enc(s, strict=True)
+        if e[0] != "ok":
+            return ok("not accepted")
+        e = e[1]
+        w = _wf_split(e)
+        if w is None or list(sf.split_selfies(e)) != w:
+            return bad("C10:malformed-output", "encoder(%r) = %r is not a well-formed SELFIES string" % (s, e))
+        d = _dec(e)
+        if d[0] != "ok":
+            return bad("C10:undecodable", "encoder(%r) = %r, which decoder rejects (%s)" % (s, e, d[0]))
+        e2 = _enc(d[1], strict=True)
+        if e2 != ("ok", e):
+            sig = "C10:unstable:ring-digit-after-branch" if judge.RING_AFTER_BRANCH.search(s) else "C10:unstable"
+            return bad(sig, "encoder(%r) = %r, decoded %r, re-encoded %s" % (s, e, d[1], str(e2)[:200]))
+        m_in = oread.read_smiles(s)
+        if not m_in.faults:
+            r = judge.standard_symbol_problem(m_in, e)
+            if r is not None:
+                return bad("C10:" + r[0], "encoder(%r): %s" % (s, r[1]))
+        return ok()
+    finally:
+        reset_table()
+
+
+def c04_stereo(case):
+    reset_table()
+    s = case["smiles"]
+    e = _enc(s, strict=False)
+    if e[0] != "ok":
+        return ok("not accepted")
+    d = _dec(e[1])
+    if d[0] != "ok":
+        return ok("decode fails (C10)")
+    m_in, m_out = oread.read_smiles(s), oread.read_smiles(d[1])
+    if m_in.faults or m_out.faults or compare_mols(m_in, m_out) is not None:
+        return ok("skeleton differs (C03)")
+    r = judge.stereo_problem(m_in, m_out)
+    if r is not None:
+        return bad("C04:" + r[0], "%r -> %r -> %r: %s" % (s, e[1], d[1], r[1]))
+    return ok()
+
 # ---------------------------------------------------------------------------
 
 KINDS = {
@@ -926,6 +946,9 @@ KINDS = {
     "encoding": c15_encoding,
     "batch_encoding": c15_batch,
     "strict": c06_strict,
+    "roundtrip": c03_roundtrip,
+    "stable": c10_stable,
+    "stereo": c04_stereo,
     "state_fn": lemma_state_fn,
     "ring_step": lemma_ring_step,
 }
